@@ -107,6 +107,7 @@ type volumes map[string]*dirNode
 type dirNode struct {
 	children children // children are the nodes present in the directory.
 	baseNode          // baseNode is the common structure of directories, files and symbolic links.
+	removed  bool     // removed is true once the directory has been removed : nothing can be created in it any more.
 }
 
 // children are the children of a directory.
